@@ -54,6 +54,50 @@ fn g(f: impl FnOnce() -> bool) -> V {
     catch_unwind(AssertUnwindSafe(f)).map_or_else(|_| V::atom("panic"), V::bool)
 }
 
+/// `pred_minus_pair`: no observation of the arcs (lines stay short); instead a summary that ties the built
+/// digraph to the description: `[order size has_arc(u,v) has_arc(v,u) arcs()==rule]`, then the predicates.
+fn minus_pair<D: P>(d: &D, u: usize, v: usize, rule_sorted: &[(usize, usize)]) -> Vec<V> {
+    let c = d.clone();
+    let arcs_ok = d.arcs().eq(rule_sorted.iter().copied());
+    vec![
+        V::L(vec![V::u(d.order()), V::u(d.size()), V::bool(d.has_arc(u, v)), V::bool(d.has_arc(v, u)), V::bool(arcs_ok)]),
+        g(|| d.is_complete()),
+        g(|| d.is_semicomplete()),
+        g(|| d.is_tournament()),
+        g(|| d.is_regular()),
+        g(|| d.is_balanced()),
+        g(|| d.is_symmetric()),
+        g(|| d.is_oriented()),
+        g(|| d.is_simple()),
+        V::bool(*d == c),
+    ]
+}
+
+/// Arcs of `pred_minus_pair <repr> <n> <u> <v> <mode>`, heads in descending order (cheap row inserts):
+/// `pair` = complete(n) minus both arcs between `u` and `v`; `arc` = complete(n) minus the arc `u -> v`;
+/// `tour` = the rule tournament of `pred_tour` with the pair `{u, v}` not joined (another pair doubled).
+pub fn minus_pair_arcs(n: usize, u: usize, v: usize, mode: &str) -> Option<Vec<(usize, usize)>> {
+    if u == v || u >= n || v >= n {
+        return None;
+    }
+    match mode {
+        "pair" | "arc" => {
+            let mut arcs = Vec::with_capacity(n * n);
+            for b in (0..n).rev() {
+                for a in (0..n).rev() {
+                    let removed = (a == u && b == v) || (mode == "pair" && a == v && b == u);
+                    if a != b && !removed {
+                        arcs.push((a, b));
+                    }
+                }
+            }
+            Some(arcs)
+        }
+        "tour" if n >= 4 => Some(tour_arcs(n, Some((u.min(v), u.max(v))))),
+        _ => None,
+    }
+}
+
 fn unary<D: P>(d: &D) -> Vec<V> {
     let c = d.clone();
     vec![
@@ -124,6 +168,19 @@ pub fn eval(op: &str, args: &[V]) -> Option<Vec<V>> {
             let k = arcs.len();
             let desc = Desc { repr: repr.to_string(), verts: (0..n).collect(), arcs, weights: vec![1; k] };
             Some(crate::with_digraph!(&desc, d => unary(&d)))
+        }
+        "pred_minus_pair" => {
+            let [repr, n, u, v, mode] = args else { return None };
+            let (repr, n, u, v, mode) = (repr.as_atom()?, n.as_usize()?, u.as_usize()?, v.as_usize()?, mode.as_atom()?);
+            if n > 2000 || !graphs::ALL_REPRS.contains(&repr) {
+                return None;
+            }
+            let arcs = minus_pair_arcs(n, u, v, mode)?;
+            let mut sorted = arcs.clone();
+            sorted.sort_unstable();
+            let k = arcs.len();
+            let desc = Desc { repr: repr.to_string(), verts: (0..n).collect(), arcs, weights: vec![1; k] };
+            Some(crate::with_digraph!(&desc, d => minus_pair(&d, u, v, &sorted)))
         }
         "pred_unary" => {
             let [d] = args else { return None };
@@ -539,6 +596,7 @@ fn extreme_id_maps(rng: &mut Rng, rounds: usize, emit: &mut dyn FnMut(String)) {
 /// The stress stream (generated only when a tie is broken and a failing input is searched for).
 fn gen_stress(rng: &mut Rng, emit: &mut dyn FnMut(String)) {
     extreme_id_maps(rng, 6, emit);
+    gen_minus_pair_stress(emit);
     // orders 192..: `order mod t` takes many values for t = min(cores, order / 64), order / t, ceil(order / t)
     large_al_lines(rng, &[200, 193, 257, 263], true, emit);
     large_al_lines(rng, &[300, 339, 513, 518], false, emit);
@@ -553,6 +611,120 @@ fn gen_stress(rng: &mut Rng, emit: &mut dyn FnMut(String)) {
     let arcs = tournament_minus_pair(rng, 200, 198, 199);
     emit(format!("pred_unary {}", mk("al", (0..200).collect(), arcs, rng).to_v()));
     large_al_lines(rng, &[770, 1030, 1100], false, emit);
+    gen_minus_pair_stress_full(emit);
+}
+
+/// Systematic sweep: complete minus ONE pair / minus one arc / rule tournament with one pair missing, the
+/// smaller endpoint on EVERY row, the larger one next to it / in the middle / last; orders of both parities
+/// on both sides of plausible thresholds. Compact lines (`pred_minus_pair`), no arc lists in the output.
+fn sweep_order(repr: &str, n: usize, rows: &[usize], partners: &[&str], modes: &[&str], emit: &mut dyn FnMut(String)) {
+    for &u in rows {
+        if u + 1 >= n {
+            continue;
+        }
+        let mut vs: Vec<usize> = vec![];
+        for &p in partners {
+            let v = match p {
+                "next" => u + 1,
+                "mid" => (u + 1 + n - 1) / 2,
+                _ => n - 1,
+            };
+            if v > u && v < n && !vs.contains(&v) {
+                vs.push(v);
+            }
+        }
+        for &v in &vs {
+            for &mode in modes {
+                if mode == "tour" && n < 4 {
+                    continue;
+                }
+                emit(format!("pred_minus_pair {repr} {n} {u} {v} {mode}"));
+                if mode == "arc" {
+                    emit(format!("pred_minus_pair {repr} {n} {v} {u} {mode}"));
+                }
+            }
+        }
+    }
+}
+
+fn all_rows(n: usize) -> Vec<usize> {
+    (0..n.saturating_sub(1)).collect()
+}
+
+/// first three, the five around the middle, last three rows
+fn sample_rows(n: usize) -> Vec<usize> {
+    let m = (n - 2) / 2;
+    let mut r: Vec<usize> = vec![0, 1, 2, m.saturating_sub(2), m.saturating_sub(1), m, m + 1, m + 2, n.saturating_sub(4), n.saturating_sub(3), n - 2];
+    r.retain(|&u| u + 1 < n);
+    r.sort_unstable();
+    r.dedup();
+    r
+}
+
+fn gen_minus_pair(thorough: bool, emit: &mut dyn FnMut(String)) {
+    // orders 2..40, all of them, every row as the smaller endpoint
+    for n in 2usize..=40 {
+        sweep_order("al", n, &all_rows(n), &["next"], &["pair"], emit);
+        if thorough {
+            sweep_order("al", n, &all_rows(n), &["mid", "last"], &["pair"], emit);
+            sweep_order("al", n, &all_rows(n), &["last"], &["arc", "tour"], emit);
+        } else {
+            let mut few = vec![0, (n - 2) / 2, n - 2];
+            few.dedup();
+            sweep_order("al", n, &few, &["last"], &["pair", "arc", "tour"], emit);
+        }
+        if n <= 6 || [17, 40].contains(&n) || thorough {
+            for repr in ["am", "mx", "el", "wu"] {
+                let rows = if n <= 6 || thorough { all_rows(n) } else { sample_rows(n) };
+                sweep_order(repr, n, &rows, &["last"], &["pair"], emit);
+            }
+        }
+    }
+    // both sides of 64 / 128: every row at 128 and 130 (both even), sampled rows elsewhere (thorough: every row)
+    for &n in &[128usize, 130] {
+        sweep_order("al", n, &all_rows(n), &["next"], &["pair"], emit);
+        sweep_order("al", n, &sample_rows(n), &["last"], &["pair", "tour", "arc"], emit);
+    }
+    for &n in &[63usize, 64, 65, 127, 129] {
+        let rows = if thorough { all_rows(n) } else { sample_rows(n) };
+        sweep_order("al", n, &rows, &["next", "last"], &["pair"], emit);
+        sweep_order("al", n, &sample_rows(n), &["next"], &["tour"], emit);
+    }
+    for repr in ["am", "mx", "el", "wu"] {
+        let n = if repr == "mx" || repr == "am" { 66 } else { 40 };
+        sweep_order(repr, n, &sample_rows(n), &["next", "last"], &["pair"], emit);
+    }
+}
+
+fn middle_rows(n: usize) -> Vec<usize> {
+    let m = (n - 2) / 2;
+    vec![m, m + 1, n - 2]
+}
+
+/// Stress part of the sweep, cheap part first: sampled rows (first / around the middle / last) at
+/// 191 … 258 and near 512, the middle rows near 1024.
+fn gen_minus_pair_stress(emit: &mut dyn FnMut(String)) {
+    for &n in &[192usize, 256, 258, 191, 255, 257] {
+        let mut rows = middle_rows(n);
+        rows.extend([0, (n - 2) / 2 - 1]);
+        sweep_order("al", n, &rows, &["next"], &["pair"], emit);
+        sweep_order("al", n, &middle_rows(n), &["last"], &["tour"], emit);
+    }
+    for &n in &[512usize, 514, 513] {
+        sweep_order("al", n, &middle_rows(n), &["next"], &["pair"], emit);
+    }
+    for &n in &[1024usize, 1026] {
+        sweep_order("al", n, &[(n - 2) / 2], &["next"], &["pair"], emit);
+    }
+}
+
+/// … and the expensive part (end of the stress stream): every row at 192, every 4th row at 256 and 258.
+fn gen_minus_pair_stress_full(emit: &mut dyn FnMut(String)) {
+    sweep_order("al", 192, &all_rows(192), &["next"], &["pair"], emit);
+    for &n in &[256usize, 258] {
+        let rows: Vec<usize> = all_rows(n).into_iter().filter(|u| u % 4 == 1).collect();
+        sweep_order("al", n, &rows, &["next"], &["pair"], emit);
+    }
 }
 
 /// Cheap out-of-distribution cases that run in EVERY tier (after the regular stream).
@@ -560,6 +732,7 @@ fn gen_ood(rng: &mut Rng, emit: &mut dyn FnMut(String)) {
     extreme_id_maps(rng, 2, emit);
     large_al_lines(rng, &[200, 263], false, emit);
 }
+
 
 pub fn gen(rng: &mut Rng, thorough: bool, emit: &mut dyn FnMut(String)) {
     if crate::stress() {
@@ -626,5 +799,6 @@ pub fn gen(rng: &mut Rng, thorough: bool, emit: &mut dyn FnMut(String)) {
     for (_, s) in lines {
         emit(s);
     }
+    gen_minus_pair(thorough, emit);
     gen_ood(rng, emit);
 }
